@@ -1,4 +1,5 @@
 import Proofs.PostLemmas
+import Proofs.LoopLemmas
 /-!
 # C11 — loops visit exactly the selected items with consistent forloop state
 
@@ -200,6 +201,188 @@ theorem tablerow_after (cols i l : Nat) :
     tablerowAfter cols i l = (do
       writeM (bs "</td>")
       if (i + 1) % cols == 0 || i + 1 == l then writeM (bs "</tr>")) := rfl
+
+/-! ## The whole loop in one equation -/
+
+/-- in the state where the body of iteration `i` of `n` over item `x` starts, `forloop` is bound to
+    the record of the `forloop_*` formulas and the loop variable to the item -/
+theorem iterStart_forloop (var : Bytes) (s : RS) (x : GoVal) (i n : Nat) (cyc) :
+    (iterStart var s x i n cyc).env.get nmForloop = forloopRec i n cyc ∧ (iterStart var s x i n cyc).tw = s.tw :=
+  ⟨Env.get_set_same _ _ _, rfl⟩
+
+theorem iterStart_var (var : Bytes) (s : RS) (x : GoVal) (i n : Nat) (cyc) (h : var ≠ nmForloop) :
+    (iterStart var s x i n cyc).env.get var = x := by
+  simp only [iterStart]
+  rw [Env.get_set_other _ _ _ _ h, Env.get_set_same]
+
+/-- every other variable is what it was before the iteration -/
+theorem iterStart_other (var : Bytes) (s : RS) (x : GoVal) (i n : Nat) (cyc) (y : Bytes) (h1 : y ≠ var) (h2 : y ≠ nmForloop) :
+    (iterStart var s x i n cyc).env.get y = s.env.get y := by
+  simp only [iterStart]
+  rw [Env.get_set_other _ _ _ _ h2, Env.get_set_other _ _ _ _ h1]
+
+/-- **C11 (loop_denotation).** A `for` or `tablerow` node on a writer that does not fail, once its
+    collection evaluates to `v` with items `items0`, and `offset`, `limit` (and `cols`) evaluate to
+    `off`, `lim` (`cols`): let `items = selectItems reversed off lim items0` (by `select_spec`:
+    reverse, skip, take).
+    * If nothing is selected and there is an `else` clause, the node renders that clause.
+    * Otherwise the bytes written and the final state are those of the **left fold of `iterStep`
+      over `items`**, started with index 0, empty cycle counters and the current state: step `i`
+      binds the loop variable to the item and `forloop` to `forloopRec i items.length cyc`
+      (`iterStart`; fields by `forloop_index` … `forloop_last`), renders the body (`iterBody`: for a
+      tablerow between `tablerowBefore`/`tablerowAfter`, see `tablerow_before`/`tablerow_after`) and
+      appends its bytes; a body ending with `break` stops the fold (`LoopSt.broke`: later items
+      change nothing, `iterStep_foldl_broke`), one ending normally or with `continue` (which has
+      skipped the rest of that iteration's body) goes on with index `i+1` and the cycle counters
+      the body left; a failing body abandons the render, the error being located at the loop tag.
+      At the end the status is `done` (sentinels are consumed) and `forloop` and the loop variable
+      have the values they had before the loop (`restoreFrom`).
+    Composes `select_spec`, `iterate_consumes`/`iterate_break`/`iterate_next`, `forloop_*`,
+    `tablerow_before/after` and `loop_restores` (C12). -/
+theorem loop_denotation (c : RCtx) (line : Nat) (tr : Bool) (var : Bytes) (e : Expr) (mods : LoopMods) (body : List Node)
+    (clauses : List (List Node)) (s : RS) (v : GoVal) (items0 : List GoVal) (off lim : Option Int) (cols : Option Nat)
+    (hcl : clauses.length ≤ 1)
+    (hv : evaluate c.P s.env e = .ok v) (hitems : loopItems v = .ok items0)
+    (hoff : intModifier c.P mods.offset ⟨line, true⟩ s = .ret (off, s))
+    (hlim : intModifier c.P mods.limit ⟨line, true⟩ s = .ret (lim, s))
+    (hcols : tablerowCols c.P tr mods.cols ⟨line, true⟩ s = .ret (cols, s)) :
+    (renderNode c (.loop line tr var e mods body clauses) s).runPure =
+      match selectItems mods.reversed off lim items0, clauses with
+      | [], [els] => (wrapAt c.cfg.path ⟨line, true⟩ (renderBlockBody c els) s).runPure
+      | items, _ =>
+        loopResult (fun e => .located (wrapError c.cfg.path e ⟨line, true⟩)) var s
+          (items.foldl (iterStep var cols (renderBlockBody c body) items.length) (LoopAcc.start s)) := by
+  -- the iterations, wrapped at the tag
+  have hiter : ∀ items : List GoVal,
+      (wrapAt c.cfg.path ⟨line, true⟩ (loopIterate c.P ⟨line, true⟩ tr var mods.cols (renderBlockBody c body) items) s).runPure =
+        loopResult (fun e => .located (wrapError c.cfg.path e ⟨line, true⟩)) var s
+          (items.foldl (iterStep var cols (renderBlockBody c body) items.length) (LoopAcc.start s)) := by
+    intro items
+    rw [runPure_wrapAt, loopIterate_run c.P ⟨line, true⟩ tr var mods.cols _ items s cols hcols]
+    simp only [loopResult]
+    rcases (items.foldl (iterStep var cols (renderBlockBody c body) items.length) (LoopAcc.start s)) with ⟨out, i, cyc, st⟩
+    cases st with
+    | running s' => rfl
+    | broke s' => rfl
+    | halted h => cases h <;> rfl
+  match clauses, hcl with
+  | [], _ =>
+    rw [renderNode]
+    rw [loopRun_eq c.P c.cfg.path ⟨line, true⟩ tr var e mods _ none s v items0 off lim hv hitems hoff hlim, no_else_clause]
+    rw [hiter]
+    split
+    · simp_all
+    · rfl
+  | [els], _ =>
+    rw [renderNode]
+    rw [loopRun_eq c.P c.cfg.path ⟨line, true⟩ tr var e mods _ (some _) s v items0 off lim hv hitems hoff hlim]
+    cases hsel : selectItems mods.reversed off lim items0 with
+    | nil => rw [else_when_empty]
+    | cons x xs => rw [no_else_when_nonempty, hiter]
+  | _ :: _ :: _, h => simp at h
+
+/-- **C11 (for_denotation).** `loop_denotation` for `{% for %}`: no decoration — an iteration
+    renders just the body (`iterBody none body i n = body`, up to the monad laws). -/
+theorem for_denotation (c : RCtx) (line : Nat) (var : Bytes) (e : Expr) (mods : LoopMods) (body : List Node)
+    (clauses : List (List Node)) (s : RS) (v : GoVal) (items0 : List GoVal) (off lim : Option Int)
+    (hcl : clauses.length ≤ 1)
+    (hv : evaluate c.P s.env e = .ok v) (hitems : loopItems v = .ok items0)
+    (hoff : intModifier c.P mods.offset ⟨line, true⟩ s = .ret (off, s))
+    (hlim : intModifier c.P mods.limit ⟨line, true⟩ s = .ret (lim, s)) :
+    (renderNode c (.loop line false var e mods body clauses) s).runPure =
+      match selectItems mods.reversed off lim items0, clauses with
+      | [], [els] => (wrapAt c.cfg.path ⟨line, true⟩ (renderBlockBody c els) s).runPure
+      | items, _ =>
+        loopResult (fun e => .located (wrapError c.cfg.path e ⟨line, true⟩)) var s
+          (items.foldl (iterStep var none (renderBlockBody c body) items.length) (LoopAcc.start s)) :=
+  loop_denotation c line false var e mods body clauses s v items0 off lim none hcl hv hitems hoff hlim
+    (tablerowCols_for _ _ _ _)
+
+/-- the body of a `for` iteration is the block body itself -/
+theorem iterBody_for (body : M Status) (i n : Nat) (s : RS) :
+    (iterBody none body i n s).runPure = (body s).runPure := by
+  simp only [iterBody, bind, M.bind, pure, M.pure, Prog.bind, Prog.runPure_bind]
+  rcases (body s).runPure with ⟨o, r⟩
+  cases r with
+  | ok r => obtain ⟨st, s'⟩ := r; simp [Prog.runPure]
+  | err e => rfl
+  | panic w => rfl
+  | unmodelled w => rfl
+
+/-- **C11 (tablerow_denotation).** `loop_denotation` for `{% tablerow %}` with `cols` columns
+    (`cols` absent or not positive: unbounded, `tablerowCols_none`/`tablerowCols_int`): iteration `i`
+    renders `tablerowBefore cols i`, the body, `tablerowAfter cols i n` (`tablerow_before`,
+    `tablerow_after`: `<tr class="rowR">` before every `cols`-th item, `<td class="colC">` … `</td>`
+    around each, `</tr>` after every `cols`-th and after the last). -/
+theorem tablerow_denotation (c : RCtx) (line : Nat) (var : Bytes) (e : Expr) (mods : LoopMods) (body : List Node)
+    (clauses : List (List Node)) (s : RS) (v : GoVal) (items0 : List GoVal) (off lim : Option Int) (cols : Nat)
+    (hcl : clauses.length ≤ 1)
+    (hv : evaluate c.P s.env e = .ok v) (hitems : loopItems v = .ok items0)
+    (hoff : intModifier c.P mods.offset ⟨line, true⟩ s = .ret (off, s))
+    (hlim : intModifier c.P mods.limit ⟨line, true⟩ s = .ret (lim, s))
+    (hcols : tablerowCols c.P true mods.cols ⟨line, true⟩ s = .ret (some cols, s)) :
+    (renderNode c (.loop line true var e mods body clauses) s).runPure =
+      match selectItems mods.reversed off lim items0, clauses with
+      | [], [els] => (wrapAt c.cfg.path ⟨line, true⟩ (renderBlockBody c els) s).runPure
+      | items, _ =>
+        loopResult (fun e => .located (wrapError c.cfg.path e ⟨line, true⟩)) var s
+          (items.foldl (iterStep var (some cols) (renderBlockBody c body) items.length) (LoopAcc.start s)) :=
+  loop_denotation c line true var e mods body clauses s v items0 off lim (some cols) hcl hv hitems hoff hlim hcols
+
+theorem iterBody_tablerow (cols : Nat) (body : M Status) (i n : Nat) :
+    iterBody (some cols) body i n = (do
+      tablerowBefore cols i
+      let st ← body
+      tablerowAfter cols i n
+      pure st) := rfl
+
+/-! ### Non-vacuity of the denotation theorems
+
+A minimal context (strings print as themselves), the loop `{% for x in ["a","b","c"] %}…{% endfor %}`. -/
+
+def c11Prims : Prims :=
+  { equal := fun _ _ => .ok false, less := fun _ _ => .ok false, contains := fun _ _ => .ok false,
+    equalFn := fun _ _ => .ok false, applyFilter := fun _ v _ => .ok v, hasFilter := fun _ => false }
+def c11Out : OutPrims := { chunks := fun v => match v with | .str b => .ok [b] | _ => .ok [] }
+def c11Ctx : RCtx := { P := c11Prims, O := c11Out, cfg := {}, inc := fun _ _ _ => .unmodelled "no include" }
+def c11Abc : List GoVal := [.str [97], .str [98], .str [99]]
+
+/-- all hypotheses of `for_denotation` hold for the literal array, `offset: 1`, no limit, any body -/
+example (body : List Node) :
+    (renderNode c11Ctx (.loop 1 false [120] (.lit (.slice .any c11Abc)) { offset := some (.lit (.int .int 1)) } body [])
+        ⟨[], {}⟩).runPure =
+      loopResult (fun e => .located (wrapError [] e ⟨1, true⟩)) [120] ⟨[], {}⟩
+        ([GoVal.str [98], .str [99]].foldl (iterStep [120] none (renderBlockBody c11Ctx body) 2) (LoopAcc.start ⟨[], {}⟩)) :=
+  for_denotation c11Ctx 1 [120] (.lit (.slice .any c11Abc)) { offset := some (.lit (.int .int 1)) } body []
+    ⟨[], {}⟩ (.slice .any c11Abc) c11Abc (some 1) none (by decide) rfl rfl rfl rfl
+
+/-- the fold on a body that prints the item: `abc`, index 3, still running -/
+example :
+    (c11Abc.foldl (iterStep [120] none (renderBlockBody c11Ctx [.obj 1 (.var [120])]) 3) (LoopAcc.start ⟨[], {}⟩)).out =
+      [97, 98, 99] := by
+  simp [c11Abc, List.foldl, iterStep, LoopAcc.start, iterBody, iterStart, renderBlockBody, renderList, renderNode,
+    wrapFailAt, M.mapFail, M.bind, M.pure, writeM, flushM, Prog.bind, Prog.mapFail, Prog.runPure, bind, pure, c11Ctx,
+    M.getEnv, M.ofRes, evaluate, eval, Env.set, Env.get, GoVal.toLiquid, GoVal.unwrap, GoVal.isNil, c11Out, writeAllM,
+    nmForloop]
+
+/-- the fold on a body `{{ x }}{% break %}`: the first item only (its text still pending in the
+    trim writer), then the loop is over — the items `b`, `c` change nothing -/
+example :
+    ∃ s', (c11Abc.foldl (iterStep [120] none (renderBlockBody c11Ctx [.obj 1 (.var [120]), .brk 1]) 3)
+        (LoopAcc.start ⟨[], {}⟩)).st = .broke s' ∧ s'.tw = { buf := [97], trim := false } := by
+  simp [c11Abc, List.foldl, iterStep, LoopAcc.start, iterBody, iterStart, renderBlockBody, renderList, renderNode,
+    wrapFailAt, M.mapFail, M.bind, M.pure, writeM, Prog.bind, Prog.mapFail, Prog.runPure, bind, pure, c11Ctx,
+    M.getEnv, M.ofRes, evaluate, eval, Env.set, Env.get, GoVal.toLiquid, GoVal.unwrap, GoVal.isNil, c11Out, writeAllM,
+    nmForloop]
+
+/-- `{% continue %}` first: every item is visited (index reaches 3), nothing is printed -/
+example :
+    (c11Abc.foldl (iterStep [120] none (renderBlockBody c11Ctx [.cont 1, .obj 1 (.var [120])]) 3)
+        (LoopAcc.start ⟨[], {}⟩)).i = 3 ∧
+    (c11Abc.foldl (iterStep [120] none (renderBlockBody c11Ctx [.cont 1, .obj 1 (.var [120])]) 3)
+        (LoopAcc.start ⟨[], {}⟩)).out = [] := by
+  simp [c11Abc, List.foldl, iterStep, LoopAcc.start, iterBody, iterStart, renderBlockBody, renderList, renderNode,
+    M.bind, M.pure, Prog.bind, Prog.runPure, bind, pure, nextCyc]
 
 /-! Non-vacuity -/
 example : selectItems true (some 1) (some 2) [.int .int 1, .int .int 2, .int .int 3, .int .int 4]
